@@ -539,6 +539,24 @@ fn the_book(gen_seed: u64, fmt: Fmt) -> wb::LBook {
             b.sheets.push(wb::gen_sheet_at(&mut rng, "Small", 10, (3, 0, 6, 3)));
             b
         }
+        15 => {
+            // a title block: a merged region whose top-left cell holds a value, starting above the header row the
+            // history sets and reaching it (seeded C08-m16: reads depended on whether load_merged_regions() had run)
+            let mut b = wb::LBook::default();
+            let mut sh = wb::LSheet { name: "M".into(), ..Default::default() };
+            let top = rng.below(3) as u32 + 1;
+            // (the other cells of a merged region are empty, as Excel leaves them)
+            for (r, c, v) in [(top, 1u32, 7.5), (top + 1, 3, 8.5), (top + 2, 1, 9.5), (top + 2, 2, 10.5), (top + 3, 3, 11.5)] {
+                sh.cells.insert((r, c), wb::V::Num(v));
+            }
+            if fmt == Fmt::Xlsx {
+                sh.merges.push(verif_harness::xlsxw::rect_ref(((top, 1), (top + 1, 2))));
+                sh.merges.push(verif_harness::xlsxw::rect_ref(((top + 3, 3), (top + 4, 3))));
+            }
+            b.sheets.push(sh);
+            b.sheets.push(wb::gen_sheet_at(&mut rng, "Other", 10, (0, 0, 6, 3)));
+            b
+        }
         11 | 13 => {
             // a macro part that cannot be parsed (random bytes / empty / a compound file without a `dir` stream):
             // `vba_project()` must say so on every call (seeded C07-m18: a result cache filled before the attempt)
@@ -593,6 +611,16 @@ fn gen_case(rng: &mut Rng, fmt: Fmt) -> Case {
                 ops.push(Op::H(h));
                 ops.push(if rng.chance(1, 2) { Op::W } else { Op::R("Big".into()) });
                 ops.push(if rng.chance(1, 2) { Op::R("Big".into()) } else { Op::RR("Big".into()) });
+            }
+        }
+        15 => {
+            let top = book.sheets[0].cells.keys().map(|k| k.0).min().unwrap_or(1);
+            for h in [Some(top + 1), Some(top + 2), None, Some(top + 1)] {
+                ops.extend([Op::H(h), Op::RR("M".into()), Op::R("M".into())]);
+                if rng.chance(1, 2) {
+                    ops.push(Op::LM);
+                }
+                ops.extend([Op::RR("M".into()), Op::R("M".into()), Op::MR]);
             }
         }
         11 | 13 => {
